@@ -27,6 +27,8 @@ mod facts;
 mod k_resp;
 #[cfg(feature = "k_gen")]
 mod k_req;
+#[cfg(feature = "k_gen")]
+mod k_lex;
 #[cfg(feature = "k_dflt")]
 mod k_dflt;
 #[cfg(feature = "k_enum")]
@@ -74,6 +76,8 @@ fn dispatch(op: &str, input: &mut Value) -> OpResult {
     "graph" | "registry" => k_graph::eval(op, input),
     #[cfg(feature = "k_gen")]
     "inject" => k_resp::eval_inject(op, input),
+    #[cfg(feature = "k_gen")]
+    "lex" => k_lex::eval(op, input),
     #[cfg(feature = "k_gen")]
     "flags" => k_resp::eval_flags(op, input),
     #[cfg(feature = "k_gen")]
